@@ -79,7 +79,14 @@ impl DeriveShape for FuncDef {
         Shape::Func(FuncShapeDef {
             args: table,
             arg_order,
-            ret: shape.with_pos(self.pos.clone()).into(),
+            // A type error in the body stays where it was found. Moved to our
+            // own position it would travel on with every function that calls
+            // us and end up at the definition of the outermost one.
+            ret: match shape {
+                Shape::TypeErr(_, _) => shape,
+                shape => shape.with_pos(self.pos.clone()),
+            }
+            .into(),
         })
     }
 }
